@@ -161,7 +161,7 @@ def reader_run(pid, tier, mcs, mult, known_match=None, rbufs=RBUFS, chunks=CHUNK
                     prog = dict(id=hit[0]["tid"])
                     break
             if not hit:
-                unrepro.append(rj["tid"])
+                unrepro.append((rj["tid"], rj["event"].get("e")))
                 continue
             path = core.save_replay(pid, "reader", dict(id=prog["id"], batch=seq), hit[0]["trace"],
                                     "event %d not explained by WSReader (only after the %d programs that ran before it in the same process): %s" % (
@@ -175,8 +175,14 @@ def reader_run(pid, tier, mcs, mult, known_match=None, rbufs=RBUFS, chunks=CHUNK
             continue
         path = core.save_replay(pid, "reader", prog, rj2["trace"], "event %d not explained by WSReader: %s" % (rj2["index"], json.dumps(rj2["event"])[:400]))
         violations.append(path)
-    if unrepro and not violations:
-        raise core.Infra("rejection of %s did not reproduce (alone, and three times with its history)" % ", ".join(unrepro[:3]))
+    # a watchdog expiry that never reproduces (alone, and three times with its history) is CPU starvation of the driver,
+    # not behaviour of the library: a real hang is deterministic in these single-goroutine programs
+    starved = [t for t, e in unrepro if e == "HANG"]
+    other = [t for t, e in unrepro if e != "HANG"]
+    for t in starved:
+        log("[%s] watchdog expiry of %s did not reproduce: ignored (driver starved of CPU)" % (pid, t))
+    if other and not violations:
+        raise core.Infra("rejection of %s did not reproduce (alone, and three times with its history)" % ", ".join(other[:3]))
     seen = set()
     for k, prog in known_hits:
         if k["id"] not in seen:
